@@ -25,7 +25,7 @@ func (c08) Components() map[string][]string {
 	}
 }
 func (c08) ProbeNames() []string {
-	return []string{"fat12", "fat16", "fat32", "op-refused", "fill-reached-refusal", "empty"}
+	return []string{"fat12", "fat16", "fat32", "op-refused", "fill-reached-refusal", "empty", "empty-by-truncate"}
 }
 func (c08) Budget(tier string) (int, int, int) {
 	if tier == "thorough" {
